@@ -9,7 +9,8 @@ gives the analogue of `settled_spec_eq_table` without the hypothesis "no buff ef
 
 * `BuffPayloadOK u cfg immune limited pen d` — for every running fleet-boost effect the registered
   warfare-buff modifiers are (a permutation of) the specification's `buffModifiers` computed from the table and
-  the recorded targets are (a permutation of) the ships the specification boosts;
+  the recorded targets are (a permutation of) the ships the specification boosts — or the projector has no
+  projected modifier at all (then the service records no targets, and none matter);
 * `BuffSettled …  d` — `d` is `derivedDyn u cfg` on loaded items, running effects and recorded targets of
   ordinary effects, and satisfies `BuffPayloadOK`;
 * `settled_spec_eq_table_buff` — then the from-scratch values of `(cfg, d)` are the table's reads.
@@ -25,9 +26,10 @@ variable {u : Universe} {immune limited : List Int} {pen : Nat → Rat} {cfg : C
 
 /-- **Payload of the fleet boosts, from the specification's table**: for every configured item `a` with a
 running fleet-boost effect `e`, `d.bspecs a.id e.id` is a permutation of the specification's warfare-buff
-modifiers of `a` (templates selected by the buff id attributes as the table has them), and `d.tgts a.id e.id`
-is a permutation of the ids of the ships the specification boosts (own fit's ship, ships of the fits in the
-same fleet). -/
+modifiers of `a` (templates selected by the buff id attributes as the table has them), and — unless
+`projMods u d a e = []`, i.e. the boost has neither a registered well-formed warfare-buff modifier nor a
+target-domain modifier of its own — `d.tgts a.id e.id` is a permutation of the ids of the ships the
+specification boosts (own fit's ship, ships of the fits in the same fleet). -/
 def BuffPayloadOK (u : Universe) (cfg : Config) (immune limited : List Int) (pen : Nat → Rat) (d : Dyn) : Prop :=
   BuffPayloadFor u cfg (read (evalAll u cfg immune limited pen)) d
 
@@ -196,7 +198,7 @@ theorem fleet_settled : BuffSettled fleetU fleetCfg specImmune specLimited fleet
     · rw [r2] at he; simp only [List.mem_cons, List.not_mem_nil, or_false] at he; subst he
       refine ⟨⟨[⟨1, 4, none, 37, 6, 1, some 10, 2469⟩], by decide +kernel, List.Perm.refl _⟩, ?_⟩
       have : boostTargets fleetCfg fleetMod.fit = [fleetShip1, fleetShip3] := by rfl
-      rw [this]; exact List.Perm.refl _
+      rw [this]; exact Or.inr (List.Perm.refl _)
     · rw [r3] at he; cases he
 
 /-- The hypotheses of `settled_spec_eq_table_buff` hold for this world (a universe *with* a buff effect), and
@@ -217,5 +219,48 @@ example : valueOfD fleetU fleetCfg (derivedDyn fleetU fleetCfg) specImmune specL
 example : valueOfD fleetU fleetCfg fleetD specImmune specLimited fleetPen
     (read (evalAll fleetU fleetCfg specImmune specLimited fleetPen)) fleetShip3 ⟨37, none, none, true, true⟩ =
       .ok 150 := by decide +kernel
+
+/-! ### A running boost with an unknown buff id
+
+The same world, but the module's buff id attribute is 11, for which the universe has no template: the service
+registers no warfare-buff modifier and publishes no `EffectApplied`, so the settled state records no targets for
+the running boost (while `boostTargets` lists both ships).  `BuffSettled` holds through the first disjunct of
+the target clause, and the ships read their base value on both levels. -/
+def fleetU2 : Universe :=
+  { fleetU with types := [⟨1, none, some 6, none, [(37, 100)], [], []⟩,
+                          ⟨2, none, some 7, some 2000, [(2468, 11), (2469, 3/2)], [2000], []⟩] }
+def fleetD2 : Dyn :=
+  { loaded := (derivedDyn fleetU2 fleetCfg).loaded, on := (derivedDyn fleetU2 fleetCfg).on,
+    tgts := fun _ _ => [], bspecs := fun _ _ => [] }
+
+theorem fleet2_settled : BuffSettled fleetU2 fleetCfg specImmune specLimited fleetPen fleetD2 := by
+  have r1 : runningEffects fleetU2 fleetCfg fleetShip1 = [] := by decide +kernel
+  have r2 : runningEffects fleetU2 fleetCfg fleetMod = [⟨2000, 1, none, none, true, []⟩] := by rfl
+  have r3 : runningEffects fleetU2 fleetCfg fleetShip3 = [] := by decide +kernel
+  refine BuffSettled.intro rfl rfl ?_ ?_
+  · intro a ha e he hbf
+    simp only [fleetCfg, List.mem_cons, List.not_mem_nil, or_false] at ha
+    rcases ha with rfl | rfl | rfl
+    · rw [r1] at he; cases he
+    · rw [r2] at he; simp only [List.mem_cons, List.not_mem_nil, or_false] at he; subst he; cases hbf
+    · rw [r3] at he; cases he
+  · intro a ha e he _
+    simp only [fleetCfg, List.mem_cons, List.not_mem_nil, or_false] at ha
+    rcases ha with rfl | rfl | rfl
+    · rw [r1] at he; cases he
+    · rw [r2] at he; simp only [List.mem_cons, List.not_mem_nil, or_false] at he; subst he
+      exact ⟨⟨[], by decide +kernel, List.Perm.refl _⟩, Or.inl rfl⟩
+    · rw [r3] at he; cases he
+
+/-- The running boost has boost targets in the specification but none recorded. -/
+example : (boostTargets fleetCfg fleetMod.fit).map (·.id) = [1, 3] ∧ fleetD2.tgts 2 2000 = [] := ⟨by rfl, rfl⟩
+example : spec (worldGraph fleetU2 specImmune specLimited fleetPen (by decide) (fleetCfg, fleetD2)) (3, 37) =
+    some 100 := by
+  have h := settled_spec_eq_table_buff (u := fleetU2) (cfg := fleetCfg) (immune := specImmune)
+    (limited := specLimited) (pen := fleetPen) (by decide) (by unfold UniqueAttrs; decide)
+    (by unfold UniqueIds; decide) (by decide) (by decide +kernel) fleet2_settled
+    (x := fleetShip3) (by simp [fleetCfg]) (am := ⟨37, none, none, true, true⟩) (by simp [fleetU2, fleetU])
+  rw [show ((3 : Nat), (37 : Int)) = (fleetShip3.id, (⟨37, none, none, true, true⟩ : AttrMeta).id) from rfl, h]
+  decide +kernel
 
 end Eos.Micro
